@@ -1,0 +1,11 @@
+//go:build verif
+
+package storage
+
+// Hook for the out-of-tree verification harness (build tag verif), add-only.
+
+// VerifAllItems lists every BundleItem of the store, pending or not.
+func (s *Store) VerifAllItems() (bis []BundleItem, err error) {
+	err = s.bh.Find(&bis, nil)
+	return
+}
